@@ -37,7 +37,7 @@ pub struct CheckDef {
 pub fn replay_dir() -> String {
     match std::env::var("VERIF_OUT_DIR") {
         Ok(d) if !d.is_empty() => format!("{d}/replays"),
-        _ => "/verif/replays".to_string(),
+        _ => format!("{}/replays", super::verif_root()),
     }
 }
 
@@ -422,7 +422,7 @@ fn merge_stats(m: &mut Merged, v: &Value) {
 pub fn drive(check: &CheckDef, opts: &DriverOpts) -> i32 {
     panics::install();
     let t0 = Instant::now();
-    let known = KnownFindings::load("/verif/known_findings.json");
+    let known = KnownFindings::load(&format!("{}/known_findings.json", super::verif_root()));
     #[allow(unused_mut)]
     let mut all_found: Vec<Found> = Vec::new();
     let mut harness_errors: Vec<String> = Vec::new();
@@ -437,11 +437,16 @@ pub fn drive(check: &CheckDef, opts: &DriverOpts) -> i32 {
         }
         let pp = part.panic_prop;
         let strict = opts.profile == "strict";
+        let as_debug_assert = false;
         let map = move |v: &mut Violation| {
             if v.property == "PANIC" {
                 v.property = pp.to_string();
                 if strict {
                     v.oracle = "panic.plain.strict".to_string();
+                }
+                if as_debug_assert {
+                    v.property = "C20".to_string();
+                    v.oracle = "panic.debug_assert".to_string();
                 }
             }
         };
@@ -520,15 +525,7 @@ pub fn drive(check: &CheckDef, opts: &DriverOpts) -> i32 {
             }
             let key = f.violation.class_key();
             let is_debug_only = *decided.entry(key).or_insert_with(|| {
-                let tmp = json!({"check": check.property, "profile": "plain", "scenario": f.scenario, "violation": {
-                    "property": f.violation.property, "oracle": "panic.plain", "detail": "", "site_file": f.violation.site_file,
-                    "site_line": f.violation.site_line, "message": f.violation.message}, "trace": f.trace});
-                let _ = std::fs::create_dir_all(replay_dir());
-                let path = format!("{}/.xprofile-{}-{}.json", replay_dir(), std::process::id(), f.i);
-                let _ = std::fs::write(&path, tmp.to_string());
-                let st = Command::new("/verif/sim/target/release/verif-sim").arg("replay").arg(&path).stdin(Stdio::null()).stdout(Stdio::null()).stderr(Stdio::null()).status();
-                let _ = std::fs::remove_file(&path);
-                matches!(st.map(|s| s.code()), Ok(Some(0)))
+                plain_build_passes(check.property, &f.scenario, &f.violation, &f.trace, f.i as u64)
             });
             if is_debug_only {
                 f.violation.property = "C20".to_string();
@@ -558,11 +555,18 @@ pub fn drive(check: &CheckDef, opts: &DriverOpts) -> i32 {
         let part = check.parts.iter().find(|p| p.scenario.name() == first.scenario).unwrap();
         let pp = part.panic_prop;
         let strict = opts.profile == "strict";
+        // candidates of a debug-assertion class are compared as such while minimising; the replay
+        // confirmation below repeats the cross-profile test on the minimised trace
+        let as_debug_assert = first.violation.oracle == "panic.debug_assert";
         let map = move |v: &mut Violation| {
             if v.property == "PANIC" {
                 v.property = pp.to_string();
                 if strict {
                     v.oracle = "panic.plain.strict".to_string();
+                }
+                if as_debug_assert {
+                    v.property = "C20".to_string();
+                    v.oracle = "panic.debug_assert".to_string();
                 }
             }
         };
@@ -685,6 +689,21 @@ pub fn replay_in_subprocess(path: &str, cap_s: u64) -> ReplayResult {
 }
 
 /// `verif-sim replay <file>`: exit 1 + VIOLATION line if the recorded violation class reproduces.
+/// Runs `trace` in the plain (release) build of the simulator; true when it does not panic there.
+fn plain_build_passes(check: &str, scenario: &str, v: &Violation, trace: &Value, tag: u64) -> bool {
+    let tmp = json!({"check": check, "profile": "plain", "scenario": scenario, "violation": {
+        "property": v.property, "oracle": "panic.plain", "detail": "", "site_file": v.site_file,
+        "site_line": v.site_line, "message": v.message}, "trace": trace});
+    let _ = std::fs::create_dir_all(replay_dir());
+    let path = format!("{}/.xprofile-{}-{}.json", replay_dir(), std::process::id(), tag);
+    let _ = std::fs::write(&path, tmp.to_string());
+    // the plain build lives next to this one: <target>/release/verif-sim
+    let exe = std::env::current_exe().ok().and_then(|p| p.parent().and_then(|d| d.parent()).map(|d| d.join("release").join("verif-sim"))).unwrap_or_else(|| "/verif/sim/target/release/verif-sim".into());
+    let st = Command::new(exe).arg("replay").arg(&path).stdin(Stdio::null()).stdout(Stdio::null()).stderr(Stdio::null()).status();
+    let _ = std::fs::remove_file(&path);
+    matches!(st.map(|s| s.code()), Ok(Some(0)))
+}
+
 pub fn replay_main(path: &str, lookup: &dyn Fn(&str, &str) -> Option<(Box<dyn Scenario>, &'static str)>) -> i32 {
     panics::install();
     let text = match std::fs::read_to_string(path) {
@@ -742,6 +761,15 @@ pub fn replay_main(path: &str, lookup: &dyn Fn(&str, &str) -> Option<(Box<dyn Sc
                 got.property = pp.to_string();
                 if strict {
                     got.oracle = "panic.plain.strict".to_string();
+                }
+            }
+            if strict && want.oracle == "panic.debug_assert" && got.oracle == "panic.plain.strict" && got.site_file == want.site_file && got.message == want.message {
+                // a debug assertion: the same trace must pass in the plain build
+                if plain_build_passes(check, scenario, &got, &v["trace"], 0) {
+                    got.property = "C20".to_string();
+                    got.oracle = "panic.debug_assert".to_string();
+                } else {
+                    println!("the same trace also panics in the plain build: not a debug-assertion failure");
                 }
             }
             if got.class_key() == want.class_key() {
